@@ -778,6 +778,10 @@ def open_text(fname):
         buffering=FILE_READ_BUFFER_SIZE,
         encoding=ENCODING,
         errors=ENCODING_ERRS,
+        # Do not translate '\r' and '\r\n' into '\n' (universal newlines):
+        # a '\r' found in e.g. /proc/pid/cmdline or /proc/pid/environ is
+        # part of the data.
+        newline="\n",
     )
     try:
         # Dictates per-line read(2) buffer size. Defaults is 8k. See:
